@@ -473,6 +473,9 @@ namespace internal {
  * Boost Software License 1.0. */
 template<typename T>
 class LoserTree {
+#ifdef PGM_INDEX_VERIF
+    friend struct pgm::verif::Access;
+#endif
     using Source = uint8_t;
 
     struct Loser {
